@@ -94,7 +94,7 @@ PROPS = {
     },
     "C04": {
         "level": "other",
-        "rules": ["R-TABLES", "R-DIRFLOW", "R-ZEROGUARD", "R-ZEROLEN"],
+        "rules": ["R-TABLES", "R-DIRFLOW", "R-ZEROGUARD", "R-ZEROLEN", "R-REPLAN"],
         "witnesses": [],
         "explanation": "Handler exhaustiveness and agreement of the planner tables, for every n: (R-TABLES) length literal -> Recipe variant -> "
                        "Recipe::len constant -> constructor type -> that type's Length::len constant agree for the scalar and SSE planners (both "
